@@ -24,7 +24,7 @@ Not decided: that the parsed list equals the source list, hoisted inner names fo
     order(m, ctx);
     kindmap(m, ctx);
     wrap(m, ctx);
-    defname(m, ctx);
+    defname(m, ctx, "C02.defname");
     // anonymous nested types are emitted wherever they are referred to (shared with C01.defined)
     crate::rules::c01::defined(m, ctx, "C02.nested");
 }
@@ -33,7 +33,7 @@ Not decided: that the parsed list equals the source list, hoisted inner names fo
 /// the function that is generated, and the function the `Default` impl calls are one name. All three go through
 /// `default_method_name(parent, field)`; the rule checks that every producer calls it with its own parent-name
 /// parameter, and that every fn driving several producers hands them the same parent-name expression.
-fn defname(m: &Model, ctx: &mut Ctx) {
+pub fn defname(m: &Model, ctx: &mut Ctx, rule: &str) {
     // (producer fn, index of the parent-name parameter among the typed parameters)
     let producers: [(&str, usize); 3] = [("format_sequence_or_set_members", 1), ("format_default_methods", 1), ("format_default_impl", 0)];
     // 1. each producer reaches default_method_name with its parent-name parameter
@@ -41,23 +41,23 @@ fn defname(m: &Model, ctx: &mut Ctx) {
         f.sig.inputs.iter().filter_map(|a| match a { syn::FnArg::Typed(t) => Some(tok(&t.pat)), _ => None }).nth(idx)
     };
     for (name, idx) in [("format_sequence_member", 1usize), ("format_default_methods", 1), ("format_default_impl", 0)] {
-        let Some(f) = anchor_fn(m, ctx, "C02.defname", Some("Rasn"), name, None) else { continue };
-        ctx.oblige("C02.defname", &format!("{}:uses-default_method_name", name), true);
+        let Some(f) = anchor_fn(m, ctx, rule, Some("Rasn"), name, None) else { continue };
+        ctx.oblige(rule, &format!("{}:uses-default_method_name", name), true);
         let pn = param(f, idx).unwrap_or_default();
         let calls: Vec<String> = model::method_calls_in(&f.block).iter().filter(|mc| mc.method == "default_method_name").map(|mc| mc.args.first().map(|a| tok(a)).unwrap_or_default()).collect();
         if calls.is_empty() {
-            ctx.violate("C02.defname", &format!("{}:uses-default_method_name", name), &f.file, f.line, &format!("{} must name the default function through default_method_name(..) like its siblings", name));
+            ctx.violate(rule, &format!("{}:uses-default_method_name", name), &f.file, f.line, &format!("{} must name the default function through default_method_name(..) like its siblings", name));
         } else if calls.iter().any(|c| c.trim_start_matches('&') != pn) {
-            ctx.violate("C02.defname", &format!("{}:parent-parameter", name), &f.file, f.line, &format!("{} calls default_method_name with {:?} as the parent name; it must pass its own parent-name parameter `{}` unchanged", name, calls, pn));
+            ctx.violate(rule, &format!("{}:parent-parameter", name), &f.file, f.line, &format!("{} calls default_method_name with {:?} as the parent name; it must pass its own parent-name parameter `{}` unchanged", name, calls, pn));
         }
     }
     // the member loop hands its parent name on unchanged
-    if let Some(f) = anchor_fn(m, ctx, "C02.defname", Some("Rasn"), "format_sequence_or_set_members", None) {
-        ctx.oblige("C02.defname", "format_sequence_or_set_members:passes-parent-on", true);
+    if let Some(f) = anchor_fn(m, ctx, rule, Some("Rasn"), "format_sequence_or_set_members", None) {
+        ctx.oblige(rule, "format_sequence_or_set_members:passes-parent-on", true);
         let pn = param(f, 1).unwrap_or_default();
         let ok = model::method_calls_in(&f.block).iter().filter(|mc| mc.method == "format_sequence_member").all(|mc| mc.args.iter().nth(1).map(|a| tok(a).trim_start_matches('&').to_string()) == Some(pn.clone()));
         if !ok {
-            ctx.violate("C02.defname", "format_sequence_or_set_members:passes-parent-on", &f.file, f.line, "format_sequence_or_set_members must hand its parent name to format_sequence_member unchanged");
+            ctx.violate(rule, "format_sequence_or_set_members:passes-parent-on", &f.file, f.line, "format_sequence_or_set_members must hand its parent name to format_sequence_member unchanged");
         }
     }
     // 2. every driver hands all producers the same parent name
@@ -77,17 +77,17 @@ fn defname(m: &Model, ctx: &mut Ctx) {
             continue;
         }
         drivers += 1;
-        ctx.oblige("C02.defname", &format!("{}:same-parent-name", f.name), true);
+        ctx.oblige(rule, &format!("{}:same-parent-name", f.name), true);
         let first = given[0].1.clone();
         for (pname, a, line) in &given {
             if *a != first {
-                ctx.violate("C02.defname", &format!("{}:same-parent-name", f.name), &f.file, *line,
+                ctx.violate(rule, &format!("{}:same-parent-name", f.name), &f.file, *line,
                     &format!("{} names the parent `{}` for {} but `{}` for {}: the default function that is generated and the one that is referred to (annotation / Default impl) get different names whenever the two spellings snake-case differently (e.g. `UE-Config`: ue_config_.. vs ueconfig_..)", f.name, first, given[0].0, a, pname));
                 break;
             }
         }
     }
-    ctx.floor("C02.defname/drivers", drivers, 1);
+    ctx.floor(&format!("{}/drivers", rule), drivers, 1);
 }
 
 fn sym(m: &Model, ctx: &mut Ctx) {
